@@ -450,24 +450,22 @@ func (m *Manager) FlushMemTables() error {
 	verifhook.Point("storage.flush.begin")
 	// If no immutable MemTables, flush the active one if needed
 	if len(pending) == 0 {
+		// In testing, we might want to force flush the active table too.
+		// It is made immutable first, like a full table: writers must not add
+		// to it once the WAL has been rotated, or the table file would hold
+		// entries whose log records are still in the new WAL's buffer - after
+		// a crash the table would be ahead of the log
+		m.mu.Lock()
 		tables := m.memTablePool.GetMemTables()
 		if len(tables) > 0 && tables[0].ApproximateSize() > 0 {
-			// In testing, we might want to force flush the active table too
-			// Create a new WAL file for future writes
-			if err := m.rotateWAL(); err != nil {
-				m.stats.TrackError("wal_rotate_error")
-				return fmt.Errorf("failed to rotate WAL: %w", err)
-			}
+			m.immutableMTs = append(m.immutableMTs, m.memTablePool.SwitchToNewMemTable())
+		}
+		pending = append([]*memtable.MemTable(nil), m.immutableMTs...)
+		m.mu.Unlock()
 
-			if err := m.flushMemTable(tables[0]); err != nil {
-				m.stats.TrackError("memtable_flush_error")
-				return fmt.Errorf("failed to flush active MemTable: %w", err)
-			}
-
+		if len(pending) == 0 {
 			return nil
 		}
-
-		return nil
 	}
 
 	// Create a new WAL file for future writes
